@@ -36,6 +36,12 @@ def cases(ctx):
             fcfg["pp"] = (fcfg["pp"] or []) + [ipgen.rand_net4(rng, 32)]
         yield {"kind": "dump", "fcfg": fcfg, "seed": rng.getrandbits(32), "nfiles": rng.randint(1, 8),
                "cli": rng.random() < ctx.pick(0.08, 0.05), "bad_files": rng.choice([0, 0, 1, 2]), "stale_dump": rng.random() < 0.3}
+    # one large run: thousands of distinct addresses of both families (a memo that stops recording shows only then)
+    for fcfg in ipref.file_configs(rng, ctx.per_shard(ctx.pick(4, 64)), quick=ctx.quick):
+        fcfg["B4"] = rng.choice([0, 0, None, 8])
+        fcfg["B6"] = rng.choice([0, 0, None, 8])
+        yield {"kind": "dump", "fcfg": fcfg, "seed": rng.getrandbits(32), "nfiles": 2, "cli": False, "bad_files": 0, "stale_dump": False,
+               "bulk": [ctx.pick(4500, 40000), ctx.pick(900, 4000)]}
 
 
 def read_pairs(segs, out_line):
@@ -73,6 +79,11 @@ def check_case(ctx, case):
         # no ':port' suffixes here: tokens are read back by position as maximal [0-9a-f.:] runs
         lns = [[s for s in segs if not (s[1]["t"] == "d" and s[0].startswith(":"))] for segs in lns]
         files.append(lns)
+    if case.get("bulk"):
+        n4, n6 = case["bulk"]
+        files.append([[["host ", {"t": "d"}], [ipref.s4(v), {"t": "v4", "v": v}]] for v in (rng.getrandbits(32) for _ in range(n4))]
+                     + [[["peer ", {"t": "d"}], [ipref.s6(v), {"t": "v6", "v": v}]] for v in (rng.getrandbits(128) for _ in range(n6))])
+        ctx.count("bulk_runs")
     if rng.random() < 0.5:
         # an IPv4 address and an IPv6 address below 2**32 with the same integer value in one run
         v = rng.choice([9, 0x01020304, rng.getrandbits(32), rng.getrandbits(24)])
